@@ -1,10 +1,13 @@
 #!/bin/sh
 # development aid: the independent checker coqchk over the property files whose dependencies contain vm_compute examples on large
-# images (C01, C03, C04: more than an hour; the thorough tier runs coqchk itself for all other properties).
+# images (C01, C03, C04: about 40 minutes; the thorough tier runs coqchk itself for all other properties).
 # usage: tools/coqchk_all.sh [module ...]   appends to coq/COQCHK_REPORT.txt
-cd /verif/coq || exit 2
+# the check rebuilds Props/*.vo on every run, so coqchk works on a private copy of the compiled files
+rm -rf /tmp/wk/coqchk_copy; mkdir -p /tmp/wk; cp -r /verif/coq /tmp/wk/coqchk_copy || exit 2
+cd /tmp/wk/coqchk_copy || exit 2
 MODS="${*:-FatVerif.Props.C01 FatVerif.Props.C03 FatVerif.Props.C04}"
 s=$(date +%s)
 out=$(coqchk -silent -o -Q . FatVerif $MODS 2>&1 | tail -25)
 e=$(date +%s)
+cd /verif/coq; rm -rf /tmp/wk/coqchk_copy
 { echo "== $(date -u +%Y-%m-%dT%H:%MZ) coqchk -silent -o -Q . FatVerif $MODS  ($((e-s)) s)"; echo "$out"; } >> COQCHK_REPORT.txt
